@@ -628,10 +628,18 @@ func (s *SecureChannel) getInstancesBySecureChannelID(id uint32) []*channelInsta
 	}
 
 	// return a copy of the slice in case a renewal is triggered
-	cpy := make([]*channelInstance, len(instances))
-	copy(cpy, instances)
+	now := s.timeNow()
+	cpy := make([]*channelInstance, 0, len(instances))
+	for _, instance := range instances {
+		// A token which has been replaced is only accepted
+		// until its lifetime plus 25 % has elapsed.
+		if instance != s.activeInstance && instance.expired(now) {
+			continue
+		}
+		cpy = append(cpy, instance)
+	}
 
-	return instances
+	return cpy
 }
 
 func (s *SecureChannel) LocalEndpoint() string {
@@ -964,20 +972,22 @@ func (s *SecureChannel) scheduleExpiration(instance *channelInstance) {
 	s.instancesMu.Lock()
 	defer s.instancesMu.Unlock()
 
-	oldInstances := s.instances[instance.securityTokenID]
+	// the instances are kept per secure channel id
+	oldInstances := s.instances[instance.secureChannelID]
 
-	s.instances[instance.securityTokenID] = []*channelInstance{}
+	s.instances[instance.secureChannelID] = []*channelInstance{}
 
 	for _, oldInstance := range oldInstances {
 		if oldInstance.secureChannelID != instance.secureChannelID {
 			// something has gone horribly wrong!
 			debug.Printf("uasc %d: secureChannelID mismatch during scheduleExpiration!", s.c.ID())
 		}
-		if oldInstance.securityTokenID == instance.securityTokenID {
+		// the active instance stays until it has been replaced
+		if oldInstance == instance && oldInstance != s.activeInstance {
 			continue
 		}
-		s.instances[instance.securityTokenID] = append(
-			s.instances[instance.securityTokenID],
+		s.instances[instance.secureChannelID] = append(
+			s.instances[instance.secureChannelID],
 			oldInstance,
 		)
 	}
